@@ -161,6 +161,17 @@ def body_width(case):
     for (v, c), val in combos.items():
         check(abs(val - ref_opt) <= 1e-9 * (scale + np.max(np.abs(case["shift"]))), "width:option-dependence",
               f"compute_mean_width(vectorized={v}, center={c}, n={n_opt}) of the shifted cloud = {val}, of the cloud = {ref_opt}")
+    # whole-number coordinates: the same cloud as int64 array / list of ints and as floats has the same width, for every option
+    Xi = np.round((X - X.min(0)) / scale * 7.0)
+    if len(np.unique(Xi, axis=0)) >= 2:
+        iform = ("int", "intlist")[seed % 2]
+        with calling(f"compute_mean_width (whole-number cloud as {iform})"):
+            for v in (False, True):
+                for c in (False, True):
+                    wi = float(dreye.compute_mean_width(gens.as_form(Xi, iform), n=n, seed=seed, vectorized=v, center=c))
+                    wf = float(dreye.compute_mean_width(Xi.copy(), n=n, seed=seed, vectorized=v, center=c))
+                    check(abs(wi - wf) <= 1e-9 * 7.0, "width:integer-cloud-differs",
+                          f"compute_mean_width(vectorized={v}, center={c}) of {Xi[:4].tolist()}.. given as {iform} = {wi}, given as floats = {wf}")
     check(w1 == w2, "width:not-deterministic", f"same seed gives {w1} and {w2}")
     check(abs(w1 - wv) <= 1e-12 * scale, "width:vectorized-differs", f"vectorized {wv} vs loop {w1}")
     check(abs(w1 - wt) <= 1e-9 * (scale + np.max(np.abs(case["shift"]))), "width:translation", f"{w1} -> {wt} under translation (same seed)")
